@@ -45,7 +45,9 @@ func VerifH_C04_KeySwitch() {
 
 func VerifH_C04_KeySwitchBitDecomp() {
 	vConfig("algebraic-samplers", "1")
-	for _, set := range []int{0, 1, 6} {
+	// (set 2 has two auxiliary primes: a key at LevelP 0 with power-of-two digits under parameters whose maximum LevelP
+	// is 1 - the choice of the gadget product follows the key, not the parameters)
+	for _, set := range []int{0, 1, 6, 2} {
 		c := VerifSetup_Ctx(set, vIsAlgebraic())
 		c.Kgen.GenSecretKey(c.Sk)
 		c.Kgen.GenSecretKey(c.Sk2)
